@@ -1095,7 +1095,7 @@ func (fr *Frame) binop(st *State, i *ssa.BinOp) Val {
 	case token.LSS, token.LEQ, token.GTR, token.GEQ:
 		op := map[token.Token]string{token.LSS: "<", token.LEQ: "<=", token.GTR: ">", token.GEQ: ">="}[i.Op]
 		if srt == "Str" {
-			f := u.enc.declFun("str_lt", []string{"Str", "Str"}, "Bool")
+			f := u.strLt()
 			switch i.Op {
 			case token.LSS:
 				return Val{T: app(f, x.T, y.T), S: "Bool"}
@@ -1763,4 +1763,18 @@ func (u *Unit) snapshotInterior(st *State, v Val) Val {
 	}
 	u.note("address of a struct field stored in the heap: represented by a snapshot copy of the field's current value (not an alias)")
 	return Val{T: r, S: "Int", Ty: v.Ty}
+}
+
+// strLt: the lexicographic order on strings as an uninterpreted relation with the axioms of a strict total order
+// (irreflexive, asymmetric, transitive, total); nothing else about it (no link to contents or concatenation) is known.
+func (u *Unit) strLt() string {
+	f := u.enc.declFun("str_lt", []string{"Str", "Str"}, "Bool")
+	if !u.strLtAx {
+		u.strLtAx = true
+		u.assume("(forall ((a!s Str) (b!s Str)) (! (=> (str_lt a!s b!s) (not (str_lt b!s a!s))) :pattern ((str_lt a!s b!s))))")
+		u.assume("(forall ((a!s Str) (b!s Str)) (! (or (str_lt a!s b!s) (str_lt b!s a!s) (= a!s b!s)) :pattern ((str_lt a!s b!s))))")
+		u.assume("(forall ((a!s Str) (b!s Str) (c!s Str)) (! (=> (and (str_lt a!s b!s) (str_lt b!s c!s)) (str_lt a!s c!s)) :pattern ((str_lt a!s b!s) (str_lt b!s c!s))))")
+		u.note("string ordering (<, <=, >, >=) is an uninterpreted strict total order (package strings/runtime trusted)")
+	}
+	return f
 }
